@@ -107,7 +107,8 @@ MapEntry(idx, f, pay) ==
            jv == LastOcc(p.fields, 2, NativeWt(f.vkind), Len(p.fields))
            key == IF jk = 0 THEN [ok |-> TRUE, v |-> ScalarDefault(f.kkind)] ELSE DecodeSingle(idx, f, f.kkind, p.fields[jk], pay, 0)
            val == IF jv = 0 THEN (IF f.vkind = "message" THEN [ok |-> TRUE, v |-> [k |-> "msg", m |-> idx[f.msg].fresh, unk |-> <<>>]]
-                                  ELSE [ok |-> TRUE, v |-> IF f.vkind = "enum" THEN ZeroInt ELSE ScalarDefault(f.vkind)])
+                                  ELSE [ok |-> TRUE, v |-> IF f.vkind = "enum" THEN ZeroInt ELSE IF f.vkind = "timestamp" THEN ZeroTs
+                                                             ELSE IF f.vkind = "duration" THEN ZeroDur ELSE ScalarDefault(f.vkind)])
                   ELSE DecodeSingle(idx, f, f.vkind, p.fields[jv], pay, 0)
        IN [ok |-> key.ok /\ val.ok, key |-> key.v, val |-> val.v]
 
